@@ -14,6 +14,10 @@ CHECKS = {
    note="Assumes Ord on the element type is a total order consistent with == (BTreeMap modelled as a partial function); quantified invariant used through ground instances (sound for 'holds', counterexamples are confirmed natively); len < 2^32.",
    technique='SMT-discharged inductive step (arbitrary pre-state under a representation invariant) over symbolically executed MIR; z3'),
 }
+CHECKS['C10'] = dict(engine='mirsym', category='model_checking', design='DESIGN.md §6 C10',
+   text="Bounded symbolic execution of the real MIR of PortableRegistry::retain/retain_type over symbolic well-formed registries: all 8 definition kinds, vector lengths, Option tags, every reference id and the filter predicate are solver variables (exhaustive for n<=2 entries; seeded shape templates with symbolic ids and filter for n=3,4). On every path z3 refutes each way the property can fail: result not dense/closed, map keys != reachable set (unrolled closure over the symbolic reference relation of the original), map not a bijection onto the new ids, retained entry != original with ids renamed. Recursion/step budgets turn non-termination into a natively confirmed violation.",
+   note="Symbolic indices are resolved by solver-guided case splitting (each feasible value forks). Names/docs are opaque tokens. Trusted: mirsym + std models (Vec, slice IterMut, BTreeMap<u32,u32> as arrays, mem::replace, Range<u32>), validated each run against native retain on seeded concrete registries (same map, same result). Bounds in evidence.bounds.",
+   technique=TECH)
 NA = {
 }
 m = {
